@@ -51,6 +51,13 @@ def main(argv):
     if proofs["problems"]:
         res.violation("a proof obligation of %s does not check" % pid,
                       dict(kind="proof", problems=proofs["problems"], unchecked=mod.PROOF_MODULE), no_input=True)
+    if tier == "thorough":
+        # independent re-check of the compiled proof module by Lean's external checker
+        r = core.sh(["lake", "env", "leanchecker", mod.PROOF_MODULE], cwd=core.LEAN, timeout=3600)
+        res.coverage["leanchecker"] = "ok" if r.returncode == 0 else "failed"
+        if r.returncode != 0:
+            res.violation("leanchecker rejects the compiled proof module of %s" % pid,
+                          dict(kind="proof", problems=[r.stdout[-2000:]], unchecked=mod.PROOF_MODULE), no_input=True)
     diffs = table_correspondence(res)
     if diffs:
         res.coverage["table_differences"] = diffs[:20]
